@@ -58,9 +58,13 @@ def _case(draw, tier):
         n1 = draw(st.integers(1, nsteps - 1))
         # the saved state is used as handed back (in memory), or read back from its file, and may be continued more than once
         extra = dict(n1=n1, n2=nsteps - n1, save_every=draw(st.integers(1, nsteps)), save_every_b=draw(st.integers(1, nsteps)),
-                     seed_from=draw(st.sampled_from(["memory", "memory", "disk"])), repeat=draw(st.sampled_from([1, 2, 2, 3])))
+                     seed_from=draw(st.sampled_from(["memory", "memory", "disk"])), repeat=draw(st.sampled_from([1, 2, 2, 3])),
+                     # the saved state may be looked at (plots, derived quantities) before it is continued
+                     inspect=draw(st.booleans()))
     return dict(kind=kind, device=dev, field=fld, currents=cur, nsteps=nsteps,
-                options=dict(dt_c=draw(gen.rf(0.05, 0.4)), dtmax_c=0.45, adaptive=adaptive, adaptive_window=draw(st.integers(1, 5)),
+                # mostly time steps at the stability scale; one case in five uses steps 1e-6..1e-3 of it, where the state changes
+                # by less than any "nothing has changed" tolerance per step (yet every step is a step)
+                options=dict(dt_c=draw(gen.rf(0.05, 0.4)) * (1.0 if draw(st.integers(0, 4)) else draw(gen.logu(-6, -3))), dtmax_c=0.45, adaptive=adaptive, adaptive_window=draw(st.integers(1, 5)),
                              include_screening=scr, screening_tolerance=1e-3, field_units=fu, current_units=cu,
                              terminal_psi=draw(st.sampled_from([0.0, 0.0, None, [0.3, 0.4]]))), **extra)
 
@@ -72,7 +76,43 @@ def strategy(tier):
 KEYS = ("psi", "mu", "supercurrent", "normal_current", "induced_vector_potential")
 
 
-def _run(dev, spec, nsteps, save_every, output="file", progress_interval=0, seed_solution=None, T=None, reload=False):
+INSPECTIONS = (
+    ("plot_scalar_potential", lambda s: s.plot_scalar_potential()),
+    ("plot_order_parameter", lambda s: s.plot_order_parameter()),
+    ("plot_currents", lambda s: s.plot_currents()),
+    ("plot_vorticity", lambda s: s.plot_vorticity()),
+    ("current_density", lambda s: s.current_density),
+    ("vorticity", lambda s: s.vorticity),
+    ("field_at_position", lambda s: s.field_at_position(s.device.points[:3], zs=1.0)),
+    ("vector_potential_at_position", lambda s: s.vector_potential_at_position(s.device.points[:3], zs=1.0)),
+    ("interp_order_parameter", lambda s: s.interp_order_parameter(s.device.points[:3])),
+    ("dynamics.plot", lambda s: s.dynamics.plot() if s.dynamics.mu is not None and s.dynamics.mu.shape[0] > 1 else None),
+    ("dynamics.plot_dt", lambda s: s.dynamics.plot_dt()),
+)
+
+
+def _inspect(sol, res, what):
+    """Look at a finished solution through its read-only views; its recorded state must be the same afterwards."""
+    import matplotlib.pyplot as plt
+
+    before = {k: np.array(getattr(sol.tdgl_data, k)) for k in KEYS}
+    dt0 = np.array(sol.dynamics.dt)
+    for name, call in INSPECTIONS:
+        try:
+            call(sol)
+        except Exception as exc:  # noqa: BLE001
+            res.label(f"inspection {name} raised {type(exc).__name__} (not asserted)")
+        finally:
+            plt.close("all")
+        after = {k: np.array(getattr(sol.tdgl_data, k)) for k in KEYS}
+        bad = [k for k in KEYS if not np.array_equal(before[k], after[k])]
+        if bad or not np.array_equal(dt0, sol.dynamics.dt):
+            res.fail("C11.inspection_changed_state", f"{name} changed {bad or 'the per-step record'} of the {what} it was applied to "
+                     f"(max change {max((float(np.max(np.abs(before[k] - after[k]))) for k in bad), default=0.0):.3e})")
+            return
+
+
+def _run(dev, spec, nsteps, save_every, output="file", progress_interval=0, seed_solution=None, T=None, reload=False, inspect=None):
     """returns dict(frames by step label (or only the final one), dt record, solution)"""
     import os
 
@@ -106,6 +146,8 @@ def _run(dev, spec, nsteps, save_every, output="file", progress_interval=0, seed
             disk = tdgl.Solution.from_hdf5(sol.path)
             _ = disk.tdgl_data
             out["_sol_disk"] = disk
+        if inspect is not None:
+            _inspect(out.get("_sol_disk", sol), inspect, "saved state (read back from its file)" if "_sol_disk" in out else "returned solution")
         # seed solutions must stay readable after the work directory is gone: they only use in-memory tdgl_data
     return out
 
@@ -179,7 +221,11 @@ def _resume(spec, dev, res):
     n1, n2 = spec["n1"], spec["n2"]
     seed_from, repeat = spec.get("seed_from", "memory"), int(spec.get("repeat", 1))
     full = _run(dev, spec, n1 + n2, spec["save_every"])
-    first = _run(dev, spec, n1, spec["save_every_b"], reload=seed_from == "disk")
+    first = _run(dev, spec, n1, spec["save_every_b"], reload=seed_from == "disk", inspect=res if spec.get("inspect") else None)
+    if spec.get("inspect"):
+        res.label("saved state inspected (plots, derived quantities) before continuing")
+        if res.violations:
+            return res
     seed = first["_sol_disk"] if seed_from == "disk" else first["_sol"]
     # the seed's label is what the continuation is counted from
     label = first["final_step"]
